@@ -40,6 +40,13 @@ def run(ctx):
         n = uscan.report_sinks(ctx, lambda cat: STORAGE_CATS.get(cat), sc,
                                pass_only=('from-storage', 'to-storage', 'store-volume', 'store-contents', 'std-format'))
         nfun += 1
+    from .solver import scan_solver
+    from .c12 import _without_enzyme_solute
+    for sc in (scan_solver(ctx, 'Container.create_solution'), _without_enzyme_solute(ctx, None), targets.scan_bake(ctx)):
+        uscan.report_sinks(ctx, lambda cat: STORAGE_CATS.get(cat), sc,
+                           pass_only=('from-storage', 'to-storage', 'store-volume', 'store-contents', 'std-format',
+                                      'compare-units'))
+        nfun += 1
     floor(ctx, 'functions scanned for storage discipline', nfun, 8)
     # ---- R3 observers return values free of the storage symbols
     for q in OBSERVERS:
